@@ -205,6 +205,12 @@ def const_to_lean(val):
             raise NotTranslatable("string constant outside printable ASCII")
         esc = {'"': '\\"', "\\": "\\\\", "\n": "\\n", "\t": "\\t", "\r": "\\r"}
         return ('("' + "".join(esc.get(ch, ch) for ch in val) + '".toList)', "Str")
+    if isinstance(val, bytes):
+        # a byte string as the list of its characters (only meaningful for targets whose `Bytes` is `List Char`)
+        if any((ch > 126 or ch < 32) and ch not in (10, 9, 13) for ch in val):
+            raise NotTranslatable("bytes constant outside printable ASCII")
+        esc = {'"': '\\"', "\\": "\\\\", "\n": "\\n", "\t": "\\t", "\r": "\\r"}
+        return ('("' + "".join(esc.get(chr(ch), chr(ch)) for ch in val) + '".toList)', "Bytes")
     if isinstance(val, tuple):
         parts = [const_to_lean(v) for v in val]
         return ("[" + ", ".join(p[0] for p in parts) + "]", "List:" + (parts[0][1] if parts else "_"))
@@ -604,6 +610,17 @@ class Fn:
         if tb == "List:Str" and not isinstance(node.slice, ast.Slice):
             i = self.nat_index(node.slice, env)
             return (f"(List.getD {par(base)} {par(i)} [])", "Str")
+        if tb == "Bytes" and self.t.get("bytes_elem") == "Char" and not isinstance(node.slice, ast.Slice):
+            i = self.nat_index(node.slice, env)
+            return (f"(List.getD {par(base)} {par(i)} default)", "BChar")     # one byte of a byte string (IndexError: totalised)
+        if tb == "List:Bytes" and not isinstance(node.slice, ast.Slice):
+            i = self.nat_index(node.slice, env)
+            if "IndexError" in self.t.get("raises", {}):
+                return self.raising(f"({base}[{i}]?)", "Bytes")           # IndexError leaves the function like the mapped exceptions
+            return (f"(List.getD {par(base)} {par(i)} [])", "Bytes")
+        if (tb.startswith("List:Rec:") and isinstance(node.slice, ast.UnaryOp) and isinstance(node.slice.op, ast.USub)
+                and isinstance(node.slice.operand, ast.Constant) and node.slice.operand.value == 1):
+            return (f"(List.getLastD {par(base)} default)", tb[5:])          # xs[-1] (IndexError on an empty list: totalised)
         if tb == "Bytes":
             if isinstance(node.slice, ast.Slice):
                 if node.slice.step is not None:
@@ -761,6 +778,8 @@ class Fn:
 
     def binop(self, op, l, r, node=None):
         (a, ta), (b, tb) = l, r
+        if ta == "Bytes" and tb == "Bytes" and isinstance(op, ast.Add) and self.t.get("bytes_elem") == "Char":
+            return (f"({a} ++ {b})", "Bytes")
         if ta == "QSet" and tb == "QSet":
             f = {ast.BitAnd: "inter", ast.BitOr: "union", ast.BitXor: "xor"}.get(type(op))
             if f:
@@ -853,6 +872,11 @@ class Fn:
                     return "false" if isinstance(op, ast.Is) else "true"
                 return f"(Option.isNone {par(a)})" if isinstance(op, ast.Is) else f"(Option.isSome {par(a)})"
             raise NotTranslatable("`is` on values")
+        if ta == "Bytes" and tb == "Bytes" and isinstance(op, (ast.Eq, ast.NotEq)):
+            return f"({a} == {b})" if isinstance(op, ast.Eq) else f"({a} != {b})"
+        if ta == "BChar" and tb == "Bytes" and isinstance(op, (ast.In, ast.NotIn)):
+            c = f"(List.contains {par(b)} {par(a)})"          # `byte in bytes`: one of its elements
+            return c if isinstance(op, ast.In) else f"(!{c})"
         if isinstance(op, (ast.In, ast.NotIn)) and ta in ("Bytes", "Opt:Bytes") and tb in ("Bytes", "Opt:Bytes"):
             # substring test on byte strings; an operand that may be None is only reached behind an `is not None` test
             inner = "isInfix x y"
@@ -913,6 +937,21 @@ class Fn:
                     re_, rt = None, None
                 if rt == "Str":
                     return (f"(strip {par(re_)})", "Str")
+                if rt == "Bytes" and self.t.get("bytes_elem") == "Char":
+                    return (f"(stripB {par(re_)})", "Bytes")
+            if meth == "split" and self.t.get("bytes_elem") == "Char" and len(args) == 1 and set(kw) == {"maxsplit"}:
+                try:
+                    re_, rt = self.expr(recv_node, env)
+                except NotTranslatable:
+                    re_, rt = None, None
+                ms = kw["maxsplit"]
+                if rt == "Bytes" and isinstance(ms, ast.Constant) and isinstance(ms.value, int) and ms.value >= 0:
+                    sep = args[0]
+                    if isinstance(sep, ast.Constant) and sep.value is None:
+                        return (f"(splitWs {ms.value} {par(re_)})", "List:Bytes")          # bytes.split(None, maxsplit): whitespace runs
+                    if isinstance(sep, ast.Constant) and isinstance(sep.value, bytes) and len(sep.value) == 1 and 32 < sep.value[0] < 127 and ms.value == 1:
+                        # bytes.split(sep, maxsplit=1): [before, after] when sep occurs, else [whole]; as a pair-or-one value
+                        return (f"(partition '{chr(sep.value[0])}' {par(re_)})", "Split1:Bytes")
             if meth in ("endswith", "startswith", "partition", "split", "get", "join", "format"):
                 try:
                     re_, rt = self.expr(recv_node, env)
@@ -1351,6 +1390,19 @@ class Fn:
                             out += f"{pad}let {self.lean_name(x.id)} := {ie}\n"
                             env2[x.id] = (self.lean_name(x.id), it)
                         return out + nxt(env2, ind)
+                    if t == "Split1:Bytes" and len(tgt.elts) == 2:
+                        # `a, b = x.split(sep, maxsplit=1)`: ValueError (not enough values to unpack) unless sep occurs
+                        m_ = self.t.get("raises", {})
+                        if "ValueError" not in m_:
+                            raise NotTranslatable("unpacking a split outside a function that maps ValueError")
+                        tv = f"u{ind}_{len(rest)}"
+                        env2 = dict(env)
+                        out = f"{pad}let {tv} := {e}\n{pad}if (!{tv}.2.1) then\n{pad}  {self.wrap_ret(m_['ValueError'])}\n{pad}else\n"
+                        for x, proj in zip(tgt.elts, (tv + ".1", tv + ".2.2")):
+                            out += f"{pad}  let {self.lean_name(x.id)} := {proj}\n"
+                            env2[x.id] = (self.lean_name(x.id), "Bytes")
+                            self.let_bound.add(x.id)
+                        return out + nxt(env2, ind + 1)
                     if t == "List:Str":
                         # a list unpacked into n names (ValueError unless it has exactly n items: the bridging theorem's concern)
                         tv = f"u{ind}_{len(rest)}"
@@ -1377,6 +1429,17 @@ class Fn:
                     return out + nxt(env2, ind)
             else:
                 tgt, val = s.target, s.value
+            if (isinstance(s, ast.Assign) and isinstance(tgt, ast.Subscript) and isinstance(tgt.value, ast.Name) and tgt.value.id in env
+                    and env[tgt.value.id] is not None and env[tgt.value.id][1].startswith("List:") and not env[tgt.value.id][1].endswith(":_")
+                    and isinstance(tgt.slice, ast.UnaryOp) and isinstance(tgt.slice.op, ast.USub)
+                    and isinstance(tgt.slice.operand, ast.Constant) and tgt.slice.operand.value == 1):
+                # xs[-1] = v : the last element replaced (IndexError on an empty list: totalised to appending - the code tests first)
+                nm = tgt.value.id
+                le, lt = env[nm]
+                ve = self.coerce(val, env, lt[5:])
+                env2 = dict(env)
+                env2[nm] = (self.lean_name(nm), lt)
+                return f"{pad}let {self.lean_name(nm)} := (List.dropLast {par(le)}) ++ [{ve}]\n" + nxt(env2, ind)
             name = dotted(tgt)
             if name is None or not isinstance(tgt, (ast.Name, ast.Attribute)):
                 raise NotTranslatable("assignment target")
@@ -1512,12 +1575,16 @@ class Fn:
                 st_.pop()
         if isinstance(s, ast.Try):
             m = self.t.get("raises", {})
-            ok = (not s.orelse and not s.finalbody and len(s.handlers) == 1 and s.handlers[0].type is not None
-                  and dotted(s.handlers[0].type) in m and len(s.handlers[0].body) == 1 and isinstance(s.handlers[0].body[0], ast.Raise))
+            htypes = []
+            if len(s.handlers) == 1 and s.handlers[0].type is not None:
+                ht = s.handlers[0].type
+                htypes = [dotted(x) for x in ht.elts] if isinstance(ht, ast.Tuple) else [dotted(ht)]
+            ok = (not s.orelse and not s.finalbody and len(s.handlers) == 1 and htypes and all(x in m for x in htypes)
+                  and len(s.handlers[0].body) == 1 and isinstance(s.handlers[0].body[0], ast.Raise))
             if ok:
                 h = s.handlers[0].body[0]
                 exc = dotted(h.exc.func) if isinstance(h.exc, ast.Call) else dotted(h.exc)
-                ok = exc in m and m[exc] == m[dotted(s.handlers[0].type)]
+                ok = exc in m and all(m[exc] == m[x] for x in htypes)
             if not ok:
                 raise NotTranslatable("try statement other than `except X: raise Y` with X and Y mapped to the same outcome")
             # the handler turns X into Y and both leave the function the same way: the body is translated in place
@@ -1574,7 +1641,7 @@ class Fn:
                     tgs = st.targets if isinstance(st, ast.Assign) else [st.target]
                     for tg in tgs:
                         for x in (tg.elts if isinstance(tg, ast.Tuple) else [tg]):
-                            d = dotted(x)
+                            d = dotted(x.value) if isinstance(x, ast.Subscript) else dotted(x)
                             if d and d not in out:
                                 out.append(d)
                 elif isinstance(st, ast.If):
@@ -1736,7 +1803,8 @@ class Fn:
         names = [self.lean_name(v) for v in vs]
         tup = "(" + ", ".join(names) + ")" if names else "()"
         exits = self.has_exit([s])
-        if not exits and self.t.get("raises") and any(isinstance(n, ast.Call) for n in ast.walk(s)):
+        if not exits and self.t.get("raises") and any(isinstance(n, ast.Call) or (isinstance(n, ast.Subscript) and "IndexError" in self.t["raises"])
+                                                      for n in ast.walk(s)):
             exits = True        # a call inside may raise: the join has to be able to carry an early exit
         types = {}
 
@@ -1868,9 +1936,13 @@ class Fn:
             if isinstance(n, (ast.Assign, ast.AugAssign, ast.AnnAssign)):
                 tg = n.targets[0] if isinstance(n, ast.Assign) else n.target
                 for tg1 in (tg.elts if isinstance(tg, ast.Tuple) else [tg]):
-                    d = dotted(tg1)
+                    d = dotted(tg1.value) if isinstance(tg1, ast.Subscript) else dotted(tg1)
                     if d in env and d not in assigned:
                         assigned.append(d)
+            if self.t.get("sort_carried") and isinstance(n, ast.Expr) and isinstance(n.value, ast.Call):
+                f_ = dotted(n.value.func)
+                if f_ and f_.endswith(".append") and f_[:-7] in env and f_[:-7] not in assigned:
+                    assigned.append(f_[:-7])
             if isinstance(n, ast.For) and n is not s:
                 raise NotTranslatable("nested for loop")
         if self.t.get("sort_carried"):
